@@ -127,19 +127,32 @@ def expect(pre, op):
         if closed_conn or not client:
             return {('conn_error', PE)}
         v = pre.s(parent)
-        if promised <= pre.highest_in:
-            return None                               # C09 decides reused ids
+        # what the parent's state alone prescribes
         if parent % 2 == 0:                           # a pushed stream cannot be a parent
             if v.st == CLOSED and v.closed_by == 'send_rst':
-                return {('conn_error', PE), ('stream_error', 7)}
-            return {('conn_error', PE)}
-        if v.st in (OPEN, HCL) and v.requester:
-            return {ACCEPT}
-        if v.st == CLOSED and v.closed_by == 'send_rst':
-            return {('stream_error', 7)}              # racing our reset: REFUSED_STREAM
-        if v.st == HCR:
+                by_parent = {('conn_error', PE), ('stream_error', 7)}
+            else:
+                by_parent = {('conn_error', PE)}
+        elif v.st in (OPEN, HCL) and v.requester:
+            by_parent = {ACCEPT}
+        elif v.st == CLOSED and v.closed_by == 'send_rst':
+            by_parent = {('stream_error', 7)}         # racing our reset: REFUSED_STREAM
+        elif v.st == HCR:
             return None                               # see F-C06-2 (agreement check)
-        return {('conn_error', PE)}
+        else:
+            by_parent = {('conn_error', PE)}
+        if promised > pre.highest_in:
+            return by_parent
+        # the promised id is not idle (RFC 7540 6.6): classified like any reuse of a stream
+        # id (5.1.1 / C09); a dead parent's own connection error is as good
+        pv = pre.s(promised)
+        if pv.st == CLOSED and _by_rst(pv):
+            stale = {('stream_error', SC)}
+        elif pv.st == CLOSED and pv.closed_by in ('send_es', 'recv_es'):
+            stale = {('conn_error', SC)}
+        else:
+            stale = {('conn_error', PE)}
+        return stale | set(x for x in by_parent if x[0] == 'conn_error')
     if t == 'CONT':
         v = pre.s(op[1])
         if v.st == CLOSED:
@@ -258,18 +271,20 @@ def agreement(ctx, tag='state'):
     for sid in sorted(set(obs.streams) | set(me.streams.keys())):
         v = obs.s(sid)
         st = me.streams.get(sid)
+        # precondition of known finding F-C06-2 in this stream's past: say so in the clause
+        sfx = '/parent-of-push-on-half-closed(remote)' if getattr(v, 'pp_on_hcr', False) else ''
         if st is None:
-            check(v.st in (IDLE, CLOSED), tag + '-disagrees:stream-missing:' + v.st, sid)
+            check(v.st in (IDLE, CLOSED), tag + '-disagrees:stream-missing:' + v.st + sfx, sid)
             if v.st == CLOSED and v.closed_by is not None and sid in me._closed_streams:
                 got = _CLOSED_BY.get(getattr(me._closed_streams[sid], 'name', None))
-                check(got == v.closed_by, tag + '-disagrees:forgotten-closed-by', (sid, got,
+                check(got == v.closed_by, tag + '-disagrees:forgotten-closed-by' + sfx, (sid, got,
                                                                                   v.closed_by))
             continue
         name = _STATE_NAMES.get(st.state_machine.state.name)
-        check(name == v.st, '%s-disagrees:%s-vs-%s' % (tag, name, v.st), sid)
+        check(name == v.st, '%s-disagrees:%s-vs-%s%s' % (tag, name, v.st, sfx), sid)
         if name == CLOSED and v.st == CLOSED and v.closed_by is not None:
             got = _CLOSED_BY.get(getattr(st.closed_by, 'name', None))
-            check(got == v.closed_by, tag + '-disagrees:closed-by', (sid, got, v.closed_by))
+            check(got == v.closed_by, tag + '-disagrees:closed-by' + sfx, (sid, got, v.closed_by))
 
 
 def judge_with_agreement(pre, op, out, ctx):
